@@ -23,9 +23,12 @@ def async_case(seed, nsteps=10, tie=False, api=None, neps=1):
     spec = rt.rand_spec(rng, tie_stream=tie)
     run = rt.AsyncRun(spec)
     out = dict(spec=spec, feats=sorted(rt.spec_features(spec)), episodes=[])
+    from tasks_c05 import CallWatchdog
+
+    wd = CallWatchdog(120, dict(spec=spec, seed=seed))  # an episode that does not finish (token starvation of the graph, see C05) ends the task at once
     for e in range(neps):
         a = api or rng.choice(["run", "step"])
-        rec, obs, gs = run.episode(nsteps, eps=e, api=a)
+        rec, obs, gs = wd(f"episode {e} ({a})", run.episode, nsteps, e, a)
         d = rt.episode_record_to_dict(rec)
         counts = {k: v["n"] for k, v in d.items()}
         cfg = rt.machine_cfg(run, counts, user_steps=nsteps)
@@ -116,13 +119,16 @@ def async_schedules(seed, nsteps=10, tie=False, variants=None, family="random"):
     out = dict(spec=spec, feats=sorted(rt.spec_features(spec)), variants=[], cfg=None)
     old_si = sys.getswitchinterval()
     counts = {n["name"]: 0 for n in spec["nodes"]}
+    from tasks_c05 import CallWatchdog
+
+    wd = CallWatchdog(120, dict(spec=spec, seed=seed))
     for e, v in enumerate(variants):
         ctl = Perturb(v["policy"], seed * 1000 + e, v.get("target"))
         _verif.set_controller(ctl if v["policy"] not in ("none", "switch") else None)
         sys.setswitchinterval(1e-6 if v["policy"] == "switch" else old_si)
         run.graph.real_time_factor = v["rtf"]
         try:
-            rec, obs, gs = run.episode(nsteps, eps=0, api=v["api"])
+            rec, obs, gs = wd(f"variant {v}", run.episode, nsteps, 0, v["api"])
         finally:
             _verif.set_controller(None)
             sys.setswitchinterval(old_si)
